@@ -921,6 +921,7 @@ mod dev {
                     || (r.rds.first().is_some_and(|x| x.target.is_some()) && z.iter().all(|x| x.name != r.name || x.ty == T_CNAME))
             })
             && z.iter().all(|r| r.ty != T_NS || !is_wildcard_name(&r.name))
+            && !is_wildcard_name(o)
     }
 
     /// classes that hold of the case, in the order of `Drv/C10.lean: classesOf`
